@@ -281,6 +281,12 @@ Print Assumptions C14_start_bound.
 (* Run's use of the manager                                            *)
 (* ------------------------------------------------------------------ *)
 
+Theorem C14_run_procs_clamped : forall pragma exclusive mp,
+  1 <= mp -> 1 <= pragma ->
+  1 <= run_procs pragma exclusive mp <= mp /\
+  (exclusive = true -> run_procs pragma exclusive mp = mp) /\
+  (exclusive = false -> run_procs pragma exclusive mp = Z.min pragma mp).
+Proof. exact run_procs_clamped. Qed.
 Theorem C14_run_returns_procs : forall x, run_granted x = true -> done_count x = 1%nat.
 Proof. exact run_returns_procs. Qed.
 Theorem C14_run_ungranted_cancels : forall x, run_granted x = false -> run_calls x = [CCancel].
